@@ -23,6 +23,7 @@ RULE = (
     "plain text, truncated XML, foreign XML. Non-trivial = a hit with >=2 modifications or a hit whose primary "
     "and alternative proteins disagree in prefix; distinct = (seed,index,rep)."
     " Every third document: a call with exclude_features in between, then the default call again must return the identical table."
+    " A fifth of the documents use scan numbers in the upper half of the unsigned 32-bit range."
 )
 ASSUMPTIONS = [
     "column names of the returned frame (scan, charge, ret_time, exp_mass, calc_mass, ms_data_file, peptide, "
@@ -49,7 +50,8 @@ def gen_doc(rng, prefix, file_idx):
     xml.append('<msms_pipeline_analysis date="2020-01-01T00:00:00"%s summary_xml="x.pepXML">' %
                (' xmlns="http://regis-web.systemsbiology.net/pepXML"' if ns else ""))
     first_signed = True
-    scan = 0
+    # scan numbers: small, or (a fifth of the documents) in the upper half of the unsigned 32-bit range PepXML allows
+    scan = 0 if rng.random() < 0.8 else int(rng.choice([2**31 - 3, 3 * 10**9, 2**32 - 400]))
     for r in range(nruns):
         with_ext = bool(rng.integers(0, 2))
         ext = str(rng.choice([".mzML", ".mzXML", ".raw"]))
